@@ -291,6 +291,14 @@ func (fr *frame) contractCall(v ssa.Value, callee *ssa.Function, ct *Contract, a
 	if ct.Locks > 0 {
 		fr.lockRankLevel(ct.Locks, ct.Key, pos)
 	}
+	if ct.Iterates != "" {
+		for i, p := range params {
+			if p.Name() == ct.Iterates && i < len(args) && args[i].fn != nil {
+				fr.iterateClosure(args[i], pos)
+				u.note("%s modelled as: calls its argument %s any number of times; the variables the callback writes are havoc'd (constrained by the callback's iterator invariant, if it has one)", ct.Key, p.Name())
+			}
+		}
+	}
 	// havoc
 	if !ct.HasMod {
 		fr.havocAll("call to " + ct.Key + " (contract without modifies clause)")
@@ -301,7 +309,7 @@ func (fr *frame) contractCall(v ssa.Value, callee *ssa.Function, ct *Contract, a
 	}
 	// the callee may allocate: the allocation counter moves forward
 	allocPre := fr.st.get(u, allocKey)
-	allocates := false
+	allocates := ct.Allocates
 	for _, en := range ct.Ensures {
 		if strings.Contains(en.Src, "fresh(") {
 			allocates = true
@@ -426,7 +434,7 @@ func (env *specEnv) resolveModifies(mk string) (ts []modTarget, ok bool) {
 			if i < 0 {
 				return nil, false
 			}
-			t, err := u.eng.ResolveType(env.pkgPath, inner[:i])
+			t, err := env.resolveType(inner[:i])
 			if err != nil {
 				return nil, false
 			}
@@ -824,8 +832,8 @@ func (fr *frame) contractCallSig(v ssa.Value, ct *Contract, sig *types.Signature
 		// callback assigns among its captured variables is havoc'd (like a goroutine's captures)
 		for i, nm := range names {
 			if nm == ct.Iterates && i < len(args) && args[i].fn != nil {
-				fr.havocCaptures(args[i])
-				u.note("%s modelled as: calls its argument %s any number of times; the variables the callback writes are havoc'd, its other effects are those of its contract (assumed schema contract)", name, nm)
+				fr.iterateClosure(args[i], pos)
+				u.note("%s modelled as: calls its argument %s any number of times; the variables the callback writes are havoc'd (constrained by the callback's iterator invariant, if it has one), its other effects are those of its contract (assumed schema contract)", name, nm)
 			}
 		}
 	}
@@ -884,7 +892,22 @@ func (fr *frame) dynamicCallVals(v ssa.Value, c *ssa.CallCommon, fv Val, args []
 	u := fr.u
 	sig := c.Value.Type().Underlying().(*types.Signature)
 	// callback clause of the enclosing top-level contract, by parameter name
-	if p, ok := c.Value.(*ssa.Parameter); ok && fr.contract != nil {
+	cbName := ""
+	if p, ok := c.Value.(*ssa.Parameter); ok {
+		cbName = p.Name()
+	} else if fr.contract != nil {
+		// a function value held in a local or captured variable: its source name
+		for _, d := range fr.dbg {
+			for _, b := range d {
+				if b.v == c.Value {
+					if _, ok := fr.contract.Callback[b.name]; ok {
+						cbName = b.name
+					}
+				}
+			}
+		}
+	}
+	if p := (cbParam{cbName}); cbName != "" && fr.contract != nil {
 		for k, cl := range fr.contract.CallbackPre[p.Name()] {
 			env := fr.specEnvAt(fr.blk, fr.st, nil)
 			env.inclusive = true
@@ -909,6 +932,9 @@ func (fr *frame) dynamicCallVals(v ssa.Value, c *ssa.CallCommon, fv Val, args []
 			env := fr.specEnvAt(fr.blk, fr.st, nil)
 			env.results = rs
 			env.resultSig = sig
+			for i, a := range args {
+				env.vars[fmt.Sprintf("arg%d", i)] = a
+			}
 			for _, cl := range cls {
 				t, err := env.boolExpr(cl.E)
 				if err != nil {
@@ -1084,3 +1110,83 @@ func (fr *frame) snapshotBytes(name string, i int, a Val, t string) {
 	arr := fmt.Sprintf("(select %s (s_ref %s))", fr.st.get(u, u.keyM(sl.Elem())), t)
 	fr.st.set(k, fmt.Sprintf("(mk-str %s (s_len %s))", u.shift(arr, "(s_off "+t+")"), t))
 }
+
+// iterateClosure models "the callee calls this closure any number of times": the closure's
+// iterator invariant (clauses 'invariant E' of its contract) must hold before the iteration
+// (obligation iter.init), what the closure may assign among its captured variables is
+// havoc'd, and the invariant is assumed afterwards (the closure's own unit proves that each
+// call preserves it).
+func (fr *frame) iterateClosure(cl Val, pos ssa.Instruction) {
+	u := fr.u
+	ct := u.eng.ContractFor(cl.fn)
+	mkEnv := func() *specEnv {
+		env := &specEnv{u: u, fr: nil, st: fr.st, old: fr.st, vars: map[string]Val{}, pkgPath: ct.PkgPath, callee: cl.fn}
+		if len(cl.binds) == len(cl.fn.FreeVars) && len(cl.binds) > 0 {
+			env.freeCells = map[string]*Ptr{}
+			for i, fv := range cl.fn.FreeVars {
+				env.freeCells[fv.Name()] = fr.asPtr(cl.binds[i], fv.Type())
+			}
+		}
+		return env
+	}
+	if ct != nil && len(ct.Invariants) > 0 {
+		ct.used = true
+		env := mkEnv()
+		for k, iv := range ct.Invariants {
+			t, extra, err := env.goal(iv.E)
+			if err != nil {
+				u.bindingError(fmt.Sprintf("iterator invariant %d of %s: %v", k+1, ct.Key, err))
+				continue
+			}
+			if o := fr.obligeO("iter.init", fmt.Sprintf("iterator invariant of %s holds before the iteration: %s", ct.Key, iv.Src), pos.Pos(), t); o != nil {
+				o.Extra = extra
+				if len(ct.Props) > 0 {
+					o.Props = ct.Props
+				}
+			}
+		}
+	}
+	before := fr.st.clone()
+	fr.havocCaptures(cl)
+	if ct != nil && ct.HasMod {
+		env := mkEnv()
+		for _, mk := range ct.Modifies {
+			if _, isFree := env.freeCells[mk]; isFree {
+				continue // the captured variable itself: havoc'd above
+			}
+			fr.havocKey(mk, env)
+		}
+	}
+	if ct != nil && len(ct.Preserves) > 0 {
+		env := mkEnv()
+		env.old = before
+		for _, pv := range ct.Preserves {
+			if t, err := env.boolExpr(pv.E); err == nil {
+				fr.assume(t)
+			}
+		}
+	}
+	if ct != nil && len(ct.Invariants) > 0 {
+		env := mkEnv()
+		for _, iv := range ct.Invariants {
+			for _, cj := range splitConj(iv.E) {
+				t, err := env.boolExpr(cj)
+				if err != nil {
+					continue
+				}
+				if isQuantConj(cj) {
+					u.emit("(assert (=> " + fr.cur + " " + t + "))")
+					u.quantHypLines[len(u.lines)-1] = true
+				} else {
+					fr.assume(t)
+				}
+			}
+			env.recordHyps(iv.E, fr.cur)
+		}
+		u.note("iterator invariant of %s assumed after the iteration (each call is proved to preserve it in the callback's own unit)", ct.Key)
+	}
+}
+
+type cbParam struct{ name string }
+
+func (c cbParam) Name() string { return c.name }
